@@ -17,7 +17,7 @@ PID = 'C11'
 DRIVERS = ['rtl']
 MODULE = 'PymtlVerif.Props.C11'
 THEOREMS = ['PV.C11.' + t for t in ['stable_sound', 'watchOKB_sound', 'iterate_some', 'stable_is_fixed_point', 'none_means_unstable',
-                                    'fixed_point_accepted', 'false_loop_eq_acyclic']]
+                                    'fixed_point_accepted', 'false_loop_eq_acyclic', 'iterate_frame', 'runEntries_frame', 'fixed_transfer', 'run_idem', 'whole_schedule']]
 TRUSTED = [
   'Model/Rtl.lean iterate/runEntries: the SCC super-block template (clone watched, run group, compare, at most 100 sweeps)',
   'the watch list and inner order are parsed from the generated wrapper source (inspect.getsource) by rtlgen.parse_scc',
@@ -212,8 +212,15 @@ def run(ck):
       e = next(e for e in entries if e[0] == 'scc')
       lines.append(leanio.line('rtl', 'watchok', d.sexp(), e[1], e[2]))
       meta.append(('watch', d, src, flow, entries, cycles, trace, status))
+      lines.append(leanio.line('rtl', 'entries', d.sexp(), [list(x) for x in entries]))
+      meta.append(('entries', d, src, flow, entries, cycles, trace, status))
   replies = ck.drv('rtl').batch(lines)
   for (what, d, src, flow, entries, cycles, trace, status), rep in zip(meta, replies):
+    if what == 'entries':
+      if rep != 'entries 1 1 1 1':
+        ck.disagreement('real SCC schedule satisfies the hypotheses of whole_schedule (each block once, wfBlocks, entries in topological order, watch lists cover)',
+                        {'source': src, 'flow': flow, 'entries': entries}, rep, 'scheduled')
+      continue
     if what == 'watch':
       if rep != 'watchok 1':
         ck.disagreement('watch list covers the SCC variables (hypothesis of stable_is_fixed_point)',
